@@ -141,6 +141,13 @@ func c15Step(c *engine.C, idx int, exists map[string]bool, order []string, deep 
 		} else {
 			cands = append(cands, "d/"+base, "n"+base)
 		}
+		// a rename that changes nothing but the letter case of the file name
+		if up := strings.ToUpper(base); up != base {
+			if dir != "" {
+				up = dir + "/" + up
+			}
+			cands = append(cands, up)
+		}
 		for _, n := range cands {
 			if !exists[n] {
 				menu = append(menu, op{"rename-first->" + n, []hChange{rename(f, n)}})
